@@ -466,6 +466,19 @@ func genC03(e *emitter, tier string, seed uint64) map[string]interface{} {
 			}
 		}
 	}
+	// v2: a metadata block whose length needs BOTH bytes of metadata_len (256 bytes and more): that field, read at every position around
+	// the physical end of the ring (the frame starts 0..16 bytes before the end), is the block's length — high byte included
+	for typ := 1; typ <= 3; typ++ {
+		for _, vl := range []int{250, 300, 33000 - 32767 + 32000} {
+			f := specFrame{typ: typ, verify: typ % 2, cmd: 9, rid: 0x01020304, to: 0x0506, st: 7, body: []byte{1, 2, 3}, nonce: 0x1112131415161718, sig: rg.bytes(16)}
+			f.md = append(append(encStr([]byte("k")), encStr(bytes.Repeat([]byte{'v'}, vl))...), append(encStr([]byte("second")), encStr([]byte("x"))...)...)
+			frame := specEncode(2, f)
+			c := len(frame) + 2
+			for back := 0; back <= 16; back++ {
+				streamCase(2, [][]byte{frame}, nil, nil, c, c-back, []int{len(frame)}, "stream/wrap-offset-long-metadata")
+			}
+		}
+	}
 	// the same for bodies whose length needs all three bytes of the length field (65536 and beyond): the field, the other multi-byte
 	// header fields and the trailer land on every position around the physical end of an exactly-fitting ring
 	for _, version := range []int{1, 2} {
